@@ -48,20 +48,29 @@ def dropOpt (p : Char → Bool) : Str → Str
 def digitsThen (s : Str) : Option Str :=
   if (s.takeWhile Char.isDigit).isEmpty then none else some (s.dropWhile Char.isDigit)
 
-/-- `[eE][-+]?[0-9]+` at the front: the rest after the exponent -/
+/-- `[0-9]+` and then the end of the string (`fullmatch`): `some []` or no match -/
+def digitsEnd (s : Str) : Option Str :=
+  if (s.takeWhile Char.isDigit).isEmpty then none
+  else if (s.dropWhile Char.isDigit).isEmpty then some [] else none
+
+/-- `[eE][-+]?[0-9]+` and then the end of the string -/
 def sciExp : Str → Option Str
-  | e :: rest => if isExpChar e then digitsThen (dropOpt isSign rest) else none
+  | e :: rest => if isExpChar e then digitsEnd (dropOpt isSign rest) else none
   | [] => none
 
-/-- `rp.number_scientific.match(s)`: `[-+]?[0-9]*\.?[0-9]+([eE][-+]?[0-9]+)` anchored at the start; what follows
-    the match.  After the sign and all leading digits either `.digits` and the exponent follow, or (giving the
-    last leading digit to `[0-9]+`) the exponent follows directly. -/
+/-- `rp.number_scientific.fullmatch(s)`: `[-+]?[0-9]*\.?[0-9]+([eE][-+]?[0-9]+)` anchored at both ends; what follows
+    the match (`some []`: the whole string is a number in scientific notation; `none`: it is not).  After the sign
+    and all leading digits either `.digits` and the exponent follow, or (giving the last leading digit to `[0-9]+`)
+    the exponent follows directly; in both cases the digits of the exponent must reach the end of the string. -/
 def sciRestDet (s : Str) : Option Str :=
   let s1 := dropOpt isSign s
   let r1 := s1.dropWhile Char.isDigit
   match (digitsThen (dropOpt isDotChar r1)).bind sciExp with
   | some rest => some rest
   | none => if (s1.takeWhile Char.isDigit).isEmpty then none else sciExp r1
+
+/-- the whole string is sign? digits* (`.`? digits+) `[eE]` sign? digits+ -/
+def sciFullDet (s : Str) : Bool := (sciRestDet s).isSome
 
 /-! ### list facts -/
 
@@ -319,70 +328,96 @@ theorem lazyTuple_shape (P A B Q : Cls) (hAB : ∀ x, A.test x = true → B.test
       · simp [ha]
     · simp [hp]
 
-/-! ### shape: `S? D* T? D+ E S? D+` (all greedy) with `D` disjoint from `S`, `T`, `E`; `S` disjoint from `T` -/
+/-! ### shape: `S? D* T? D+ E S? D+` (all greedy) with `D` disjoint from `S`, `T`, `E`; `S` disjoint from `T`
+
+Generic in the accept function `acc` of the attempt (`re.match`: anything may follow; `re.fullmatch`: nothing):
+`kD` is what the final `D+` computes under `acc` (`h7`), and it cannot succeed on a text that does not start
+with a character of `D` (`hkD`). -/
 
 section Sci
-variable (S D T E : Cls)
+variable (acc : Str → Bool) (S D T E : Cls) (kD : Str → Option Str)
 variable (hSD : ∀ x, S.test x = true → D.test x = false) (hTD : ∀ x, T.test x = true → D.test x = false)
 variable (hDE : ∀ x, D.test x = true → E.test x = false) (hST : ∀ x, S.test x = true → T.test x = false)
+variable (h7 : ∀ s, matchItems acc [.rep true 1 none D] s = kD s) (hkD : ∀ x xs, D.test x = false → kD (x :: xs) = none)
 
-/-- `D+` at the end -/
+/-- `D+` at the end, `re.match` -/
 def kDigits (s : Str) : Option Str := if runLen D s < 1 then none else some (s.drop (runLen D s))
+/-- `D+` at the end, `re.fullmatch`: the run must reach the end of the text -/
+def kDigitsF (s : Str) : Option Str :=
+  if runLen D s < 1 then none else if (s.drop (runLen D s)).isEmpty then some [] else none
 /-- `E S? D+` -/
 def kExp : Str → Option Str
-  | e :: rest => if E.test e = true then kDigits D (dropOpt S.test rest) else none
+  | e :: rest => if E.test e = true then kD (dropOpt S.test rest) else none
   | [] => none
 /-- `D+ E S? D+` -/
-def kMant (s : Str) : Option Str := if runLen D s < 1 then none else kExp S D E (s.drop (runLen D s))
+def kMant (s : Str) : Option Str := if runLen D s < 1 then none else kExp S E kD (s.drop (runLen D s))
 
+/-- `re.match`: the greedy `D+` takes the whole run, whatever follows -/
 theorem sci_k7 (s : Str) : matchItems (fun _ => true) [.rep true 1 none D] s = kDigits D s :=
   matchItems_plus_last _ D s (fun _ _ _ => rfl)
 
-include hSD in
+/-- `re.fullmatch`: the final `D+` is deterministic too — the end of the text cannot come before the end of the run -/
+theorem sci_k7_full (s : Str) : matchItems (fun r => r.isEmpty) [.rep true 1 none D] s = kDigitsF D s := by
+  rw [matchItems_rep_det _ _ _ _ _ _ _ (by intro x xs _; simp [matchItems])]
+  simp only [capLen, kDigitsF, matchItems]
+  by_cases h : runLen D s < 1
+  · simp [h]
+  · simp only [h, if_false]
+    have ht : ∀ t : Str, (if t.isEmpty = true then some t else none) = if t.isEmpty = true then some [] else none := by
+      intro t; cases t <;> simp
+    exact ht _
+
+theorem kDigits_head_false (x : Char) (xs : Str) (h : D.test x = false) : kDigits D (x :: xs) = none := by
+  simp [kDigits, runLen_of_head_false D x xs h]
+
+theorem kDigitsF_head_false (x : Char) (xs : Str) (h : D.test x = false) : kDigitsF D (x :: xs) = none := by
+  simp [kDigitsF, runLen_of_head_false D x xs h]
+
+include hSD h7 hkD in
 theorem sci_k6 (s : Str) :
-    matchItems (fun _ => true) [.rep true 0 (some 1) S, .rep true 1 none D] s = kDigits D (dropOpt S.test s) := by
+    matchItems acc [.rep true 0 (some 1) S, .rep true 1 none D] s = kD (dropOpt S.test s) := by
   rw [matchItems_rep_det _ _ _ _ _ _ _ (by
     intro x xs hx
-    rw [sci_k7, kDigits, runLen_of_head_false D x xs (hSD x hx)]; simp)]
-  rw [if_neg (by omega), sci_k7, drop_min_one_runLen]
+    rw [h7, hkD x xs (hSD x hx)])]
+  rw [if_neg (by omega), h7, drop_min_one_runLen]
 
-include hSD in
+include hSD h7 hkD in
 theorem sci_k5 (s : Str) :
-    matchItems (fun _ => true) [.one E, .rep true 0 (some 1) S, .rep true 1 none D] s = kExp S D E s := by
+    matchItems acc [.one E, .rep true 0 (some 1) S, .rep true 1 none D] s = kExp S E kD s := by
   rw [matchItems_one]
   cases s with
   | nil => rfl
-  | cons e rest => simp only [kExp, sci_k6 S D hSD]
+  | cons e rest => simp only [kExp, sci_k6 acc S D kD hSD h7 hkD]
 
-include hSD hDE in
+include hSD hDE h7 hkD in
 theorem sci_k4 (s : Str) :
-    matchItems (fun _ => true) [.rep true 1 none D, .one E, .rep true 0 (some 1) S, .rep true 1 none D] s = kMant S D E s := by
+    matchItems acc [.rep true 1 none D, .one E, .rep true 0 (some 1) S, .rep true 1 none D] s = kMant S D E kD s := by
   rw [matchItems_rep_det _ _ _ _ _ _ _ (by
     intro x xs hx
-    rw [sci_k5 S D E hSD]; simp [kExp, hDE x hx])]
-  simp only [capLen, kMant, sci_k5 S D E hSD]
+    rw [sci_k5 acc S D E kD hSD h7 hkD]; simp [kExp, hDE x hx])]
+  simp only [capLen, kMant, sci_k5 acc S D E kD hSD h7 hkD]
 
-include hSD hDE hTD in
+include hSD hDE hTD h7 hkD in
 theorem sci_k3 (s : Str) :
-    matchItems (fun _ => true) [.rep true 0 (some 1) T, .rep true 1 none D, .one E, .rep true 0 (some 1) S, .rep true 1 none D] s
-      = kMant S D E (dropOpt T.test s) := by
+    matchItems acc [.rep true 0 (some 1) T, .rep true 1 none D, .one E, .rep true 0 (some 1) S, .rep true 1 none D] s
+      = kMant S D E kD (dropOpt T.test s) := by
   rw [matchItems_rep_det _ _ _ _ _ _ _ (by
     intro x xs hx
-    rw [sci_k4 S D E hSD hDE, kMant, runLen_of_head_false D x xs (hTD x hx)]; simp)]
-  rw [if_neg (by omega), sci_k4 S D E hSD hDE, drop_min_one_runLen]
+    rw [sci_k4 acc S D E kD hSD hDE h7 hkD, kMant, runLen_of_head_false D x xs (hTD x hx)]; simp)]
+  rw [if_neg (by omega), sci_k4 acc S D E kD hSD hDE h7 hkD, drop_min_one_runLen]
 
-include hSD hDE hTD in
+include hSD hDE hTD h7 hkD in
 theorem sci_k2 (s : Str) :
-    matchItems (fun _ => true)
+    matchItems acc
         [.rep true 0 none D, .rep true 0 (some 1) T, .rep true 1 none D, .one E, .rep true 0 (some 1) S, .rep true 1 none D] s
-      = match kMant S D E (dropOpt T.test (s.dropWhile D.test)) with
+      = match kMant S D E kD (dropOpt T.test (s.dropWhile D.test)) with
         | some r => some r
-        | none => if runLen D s < 1 then none else kExp S D E (s.dropWhile D.test) := by
-  have hk : matchItems (fun _ => true) [.rep true 0 (some 1) T, .rep true 1 none D, .one E, .rep true 0 (some 1) S, .rep true 1 none D]
-      = fun t => kMant S D E (dropOpt T.test t) := funext (sci_k3 S D T E hSD hTD hDE)
+        | none => if runLen D s < 1 then none else kExp S E kD (s.dropWhile D.test) := by
+  have hk : matchItems acc [.rep true 0 (some 1) T, .rep true 1 none D, .one E, .rep true 0 (some 1) S, .rep true 1 none D]
+      = fun t => kMant S D E kD (dropOpt T.test t) := funext (sci_k3 acc S D T E kD hSD hTD hDE h7 hkD)
   rw [matchItems_rep_greedy_unfold, if_neg (by omega), Nat.sub_zero, hk]
   -- below the top every attempt gives the rest of the digit run to `D+`
-  have hbelow : ∀ j, j < runLen D s → kMant S D E (dropOpt T.test (s.drop j)) = kExp S D E (s.dropWhile D.test) := by
+  have hbelow : ∀ j, j < runLen D s → kMant S D E kD (dropOpt T.test (s.drop j)) = kExp S E kD (s.dropWhile D.test) := by
     intro j hj
     obtain ⟨x, xs, hx, hc⟩ := head_of_lt_runLen D s j hj
     have hT : T.test x = false := by
@@ -398,11 +433,11 @@ theorem sci_k2 (s : Str) :
   | zero =>
     simp only [tryDown, List.drop_zero] at hdw ⊢
     rw [← hdw]
-    cases kMant S D E (dropOpt T.test s) <;> simp
+    cases kMant S D E kD (dropOpt T.test s) <;> simp
   | succ n =>
     simp only [tryDown, Nat.zero_add]
     rw [hdw]
-    cases hm : kMant S D E (dropOpt T.test (s.dropWhile D.test)) with
+    cases hm : kMant S D E kD (dropOpt T.test (s.dropWhile D.test)) with
     | some r => rfl
     | none =>
       rw [tryDown_const _ s 0 n (fun i hi => by
@@ -549,14 +584,23 @@ theorem kDigits_eq (s : Str) : kDigits ⟨false, [.range 48 57]⟩ s = digitsThe
   rw [clsTest_digit]
   cases h : (s.takeWhile Char.isDigit) <;> simp
 
+theorem kDigitsF_eq (s : Str) : kDigitsF ⟨false, [.range 48 57]⟩ s = digitsEnd s := by
+  unfold kDigitsF digitsEnd
+  rw [drop_runLen, clsTest_digit]
+  unfold runLen
+  rw [clsTest_digit]
+  cases h : (s.takeWhile Char.isDigit) <;> simp
+
 theorem kExp_eq (s : Str) :
-    kExp ⟨false, [.lit (Char.ofNat 43), .lit (Char.ofNat 45)]⟩ ⟨false, [.range 48 57]⟩ ⟨false, [.lit (Char.ofNat 69), .lit (Char.ofNat 101)]⟩ s
+    kExp ⟨false, [.lit (Char.ofNat 43), .lit (Char.ofNat 45)]⟩ ⟨false, [.lit (Char.ofNat 69), .lit (Char.ofNat 101)]⟩
+        (kDigitsF ⟨false, [.range 48 57]⟩) s
       = sciExp s := by
   cases s with
   | nil => rfl
-  | cons e rest => simp only [kExp, sciExp, kDigits_eq, clsTest_sign, clsTest_exp]
+  | cons e rest => simp only [kExp, sciExp, kDigitsF_eq, clsTest_sign, clsTest_exp]
 
-/-- **`rp.number_scientific.match(s)` with the generated pattern: what follows the match is the closed form** -/
+/-- **`rp.number_scientific.fullmatch(s)` with the generated pattern: what follows the match is the closed form**
+    (`some []` for a string that is a scientific-notation number in full, `none` for every other string) -/
 theorem sciRest_eq_det (s : Str) : sciRest s = sciRestDet s := by
   unfold sciRest Generated.numberScientific Generated.numberScientificUse
   simp only [useRest]
@@ -578,20 +622,24 @@ theorem sciRest_eq_det (s : Str) : sciRest s = sciRestDet s := by
     | true =>
       simp only [isExpChar, Bool.or_eq_true, beq_iff_eq] at h
       rcases h with rfl | rfl <;> exact absurd hx (by decide)
+  -- the final `[0-9]+` under fullmatch
+  have h7 := sci_k7_full ⟨false, [.range 48 57]⟩
+  have hkD := kDigitsF_head_false ⟨false, [.range 48 57]⟩
   -- the optional sign in front: nothing behind it can start with a sign
   rw [matchItems_rep_det _ _ _ _ _ _ _ (by
     intro x xs hx
-    rw [sci_k2 _ _ _ _ hSD hTD hDE]
+    rw [sci_k2 _ _ _ _ _ _ hSD hTD hDE h7 hkD]
     have hd : Cls.test ⟨false, [.range 48 57]⟩ x = false := hSD x hx
     have ht : Cls.test ⟨false, [.lit (Char.ofNat 46)]⟩ x = false := by
       rw [clsTest_sign] at hx; rw [clsTest_dot]
       simp only [isSign, Bool.or_eq_true, beq_iff_eq] at hx
       rcases hx with rfl | rfl <;> decide
     simp [List.dropWhile_cons, hd, dropOpt, ht, kMant, runLen_of_head_false _ x xs hd])]
-  rw [if_neg (by omega), drop_min_one_runLen, sci_k2 _ _ _ _ hSD hTD hDE]
+  rw [if_neg (by omega), drop_min_one_runLen, sci_k2 _ _ _ _ _ _ hSD hTD hDE h7 hkD]
   unfold sciRestDet
   simp only [clsTest_sign, clsTest_dot, clsTest_digit]
-  have hM : ∀ t, kMant ⟨false, [.lit (Char.ofNat 43), .lit (Char.ofNat 45)]⟩ ⟨false, [.range 48 57]⟩ ⟨false, [.lit (Char.ofNat 69), .lit (Char.ofNat 101)]⟩ t
+  have hM : ∀ t, kMant ⟨false, [.lit (Char.ofNat 43), .lit (Char.ofNat 45)]⟩ ⟨false, [.range 48 57]⟩ ⟨false, [.lit (Char.ofNat 69), .lit (Char.ofNat 101)]⟩
+        (kDigitsF ⟨false, [.range 48 57]⟩) t
       = (digitsThen t).bind sciExp := by
     intro t
     unfold kMant digitsThen
@@ -606,6 +654,51 @@ theorem sciRest_eq_det (s : Str) : sciRest s = sciRestDet s := by
   | some r => rfl
   | none =>
     cases h : ((dropOpt isSign s).takeWhile Char.isDigit) <;> simp
+
+theorem digitsEnd_cases (s : Str) : digitsEnd s = none ∨ digitsEnd s = some [] := by
+  unfold digitsEnd; split
+  · exact .inl rfl
+  · split
+    · exact .inr rfl
+    · exact .inl rfl
+
+theorem sciExp_cases (s : Str) : sciExp s = none ∨ sciExp s = some [] := by
+  cases s with
+  | nil => exact .inl rfl
+  | cons e rest =>
+    simp only [sciExp]; split
+    · exact digitsEnd_cases _
+    · exact .inl rfl
+
+/-- the closed form only ever answers "no match" or "matched, nothing left" -/
+theorem sciRestDet_cases (s : Str) : sciRestDet s = none ∨ sciRestDet s = some [] := by
+  unfold sciRestDet
+  simp only []
+  cases hd : digitsThen (dropOpt isDotChar ((dropOpt isSign s).dropWhile Char.isDigit)) with
+  | some t =>
+    simp only [Option.bind_some]
+    rcases sciExp_cases t with h | h <;> rw [h]
+    · simp only []; split
+      · exact .inl rfl
+      · exact sciExp_cases _
+    · exact .inr rfl
+  | none =>
+    simp only [Option.bind_none]; split
+    · exact .inl rfl
+    · exact sciExp_cases _
+
+theorem sciRestDet_eq_ite (s : Str) : sciRestDet s = if sciFullDet s then some [] else none := by
+  unfold sciFullDet
+  rcases sciRestDet_cases s with h | h <;> simp [h]
+
+/-- with `fullmatch` the ValueError branch of `sciConv` is unreachable: the loader converts or leaves alone -/
+theorem sciConv_str (s : Str) : sciConv (.str s) = if sciFullDet s then some (.sci s) else some (.str s) := by
+  simp only [sciConv, sciRest_eq_det]
+  unfold sciFullDet
+  rcases sciRestDet_cases s with h | h <;> simp [h]
+
+theorem sciConv_str_total (s : Str) : (sciConv (.str s)).isSome = true := by
+  rw [sciConv_str]; split <;> rfl
 
 /-- the generated key template on a pair -/
 theorem renderKey_pair (a b : Str) (r : List Str) : renderKey (.t (a :: b :: r)) = some (renderPair a b) := by
